@@ -405,3 +405,44 @@ Definition full_cut (t : table) : N -> nat * nat :=
   fun id => match dget id (t_data t) with Some f => (flen f, O) | None => (O, O) end.
 Definition dur_cut (t : table) : N -> nat * nat :=
   fun id => match dget id (t_data t) with Some f => (fdur f, O) | None => (O, O) end.
+
+(* ---------- exhaustive cut sweep on a concrete state (used by an Example only) ---------- *)
+(* every (kept bytes, zero fill) pair allowed by the crash model for a file *)
+Definition cuts_of (f : file) : list (nat * nat) :=
+  flat_map (fun c => map (fun p => (c, p)) (seq 0 (flen f - c + 1)))
+           (seq (fdur f) (flen f - fdur f + 1)).
+Definition nrange (lo hi : N) : list N := id_range lo hi.
+(* the whole property on one crash state: reopen succeeds, one contiguous range whose head is the
+   flush-offset head, every item in range reads exactly what the live table read at that number *)
+Definition reopen_good (clamp : bool) (t : table) (ci : nat * nat) (cd : N -> nat * nat) (cm : bool) : bool :=
+  match crash_reopen clamp t ci cd cm with
+  | Err _ => false
+  | Ok t' =>
+      (t_hidden t' <=? t_items t')
+      && (t_items t' =? t_offset t + mflush (t_mcur t) / 6 - 1)
+      && (t_hidden t' <=? N.max (t_hidden t) (t_offset t))
+      && forallb (fun i => match retrieve raw_dec t' i, read_item raw_dec t i with
+                           | Ok a, Ok b => bytes_eqb a b
+                           | _, _ => false
+                           end) (nrange (t_hidden t') (t_items t'))
+  end.
+Definition head_cut (t : table) (c : nat * nat) : N -> nat * nat :=
+  fun id => if id =? t_head t then c else full_cut t id.
+Definition mid_cut (f : file) : nat * nat :=
+  ((fdur f + (flen f - fdur f) / 2)%nat, ((flen f - fdur f) / 4)%nat).
+Definition sweep_cuts (clamp : bool) (t : table) : bool :=
+  match dget (t_head t) (t_data t) with
+  | None => false
+  | Some hf =>
+      forallb (fun cm =>
+        forallb (fun ci => forallb (fun ch => reopen_good clamp t ci (head_cut t ch) cm)
+                             [(fdur hf, O); (flen hf, O); mid_cut hf])
+                (cuts_of (t_index t))
+        && forallb (fun ch => forallb (fun ci => reopen_good clamp t ci (head_cut t ch) cm)
+                             [(fdur (t_index t), O); (flen (t_index t), O); mid_cut (t_index t)])
+                (cuts_of hf))
+        [true; false]
+  end.
+Definition H_mixed : list op :=
+  [OAppend (map blob4 [0; 1; 2]); OAppend [repeat 7 40; repeat 8 40; repeat 9 30]; OSync;
+   OTruncTail 2; OAppend (map blob4 [6; 7]); OTruncHead 7; OSyncIndex; OAppend [repeat 5 33; []; blob4 9]].
